@@ -110,6 +110,10 @@ impl Pest {
     }
 }
 
+fn thread_count() -> usize {
+    std::fs::read_dir("/proc/self/task").map(|d| d.count()).unwrap_or(0)
+}
+
 fn classify(target: &str) -> &'static str {
     if target.starts_with("socket:") {
         "socket"
@@ -161,6 +165,48 @@ fn inheritance_probe(base: &BTreeMap<i32, String>, problems: &mut Vec<(String, V
     checked
 }
 
+/// A router with a few routes is created, used and stopped (shutdown and/or proxy drop): once the
+/// router thread has wound down, everything it held must be gone.
+fn router_scenario(r: &mut Rng) -> usize {
+    use ipc_channel::router::RouterProxy;
+    let proxy = RouterProxy::new();
+    let n = r.range(1, 5) as usize;
+    let mut keep = Vec::new();
+    let mut consumers = Vec::new();
+    for i in 0..n {
+        let (tx, rx) = must("channel", ipc::channel::<u64>());
+        if r.chance(500) {
+            proxy.add_route(rx.to_opaque(), Box::new(move |m| drop(m.to::<u64>())));
+        } else {
+            consumers.push(proxy.route_ipc_receiver_to_new_crossbeam_receiver(rx));
+        }
+        for k in 0..r.below(4) {
+            let _ = tx.send(i as u64 * 10 + k);
+        }
+        if r.chance(500) {
+            keep.push(tx); // still connected when the router stops
+        }
+    }
+    match r.below(3) {
+        0 => {
+            proxy.shutdown();
+            drop(proxy);
+        },
+        1 => drop(proxy),
+        _ => {
+            proxy.shutdown();
+            proxy.shutdown();
+            // offered after the stop: must be dropped, receiver included
+            let (_tx, rx) = must("channel", ipc::channel::<u64>());
+            proxy.add_route(rx.to_opaque(), Box::new(|_| {}));
+            drop(proxy);
+        },
+    }
+    drop(keep);
+    drop(consumers);
+    n
+}
+
 pub fn run(ctx: &Ctx) {
     let rep = &ctx.rep;
     let n = ctx.opt_u64("programs", if ctx.thorough { 1500 } else { 60 });
@@ -176,6 +222,7 @@ pub fn run(ctx: &Ctx) {
     let pest = Pest::start();
     pest.quiesce();
     let base_fds = fd_table();
+    let base_threads = thread_count();
     let base_maps = shared_maps();
     let base_tmp = tmp_entries();
     let base_shm = shm_entries();
@@ -221,8 +268,19 @@ pub fn run(ctx: &Ctx) {
         let Interp { world, model, .. } = it;
         drop(world);
         drop(model);
-        // quiescent point
+        let routes = if r.chance(400) { router_scenario(&mut r) } else { 0 };
+        rep.stat("router_routes_created_and_stopped", routes as i64);
+        // quiescent point (a stopped router thread releases its descriptors when it returns: wait for
+        // that logically, never longer than until the whole process is idle)
         pest.quiesce();
+        if routes > 0 {
+            // the router thread may not even have started yet when its proxy is dropped: wait until
+            // it has come and gone (thread count back at the baseline), then for its descriptors
+            let want_threads = base_threads;
+            let _ = await_cond(20_000, &move || thread_count() <= want_threads);
+            let want = base_fds.len();
+            let _ = await_cond(20_000, &move || fd_table().keys().filter(|k| **k < 1000).count() <= want);
+        }
         let fds = fd_table();
         let extra: Vec<(i32, String)> = fds.iter().filter(|(k, _)| !base_fds.contains_key(k) && **k < 1000).map(|(k, v)| (*k, v.clone())).collect();
         let missing: Vec<i32> = base_fds.keys().filter(|k| !fds.contains_key(k)).cloned().collect();
